@@ -230,7 +230,7 @@ func (s *CallableStepSchema[StepData, InputType]) Call(ctx context.Context, runI
 	runningStepData := s.setupStepData(runID)
 	outputID, outputData := s.handler(ctx, runningStepData.initializedData, input.(InputType))
 	output, ok := s.OutputsValue[outputID]
-	if !ok {
+	if !ok || output == nil {
 		return "", nil, InvalidOutputError{
 			fmt.Errorf("undeclared output ID: %s", outputID),
 		}
